@@ -156,7 +156,9 @@ def run(chk: core.Check, tier: str, seed: int) -> None:
     # the recursion limit counts from the node the descendant segment is applied to, in this mode too:
     # data within the limit below that node must give permitted results, never an error
     for lim, d in [(3, {"a": {"a": {"a": {"b": 1}}}}), (2, [[[1], 2], [[3]]]), (3, {"a": [{"a": [0, {"b": 0}]}], "b": 0}),
-                   (2, {"a": {"b": {"c": 0}}, "c": [[0]]})]:
+                   (2, {"a": {"b": {"c": 0}}, "c": [[0]]}),
+                   # beyond the limit: arrays only / objects only / mixed below the node the segment is applied to
+                   (1, [[[[1]]]]), (2, {"a": [[[[0]]]], "b": 1}), (1, {"a": {"a": {"a": 1}}}), (2, [{"a": [[{"a": [1]}]]}, [[[[2]]]]])]:
         lenv = probes.make_env(jp, [], [], nondeterministic=True, max_depth=lim)
         ed = core.enc_value(d)
         for q in ["$.a..*", "$[0]..*", "$.*..*", "$[*]..[0]", "$.a.a..b", "$.a..[?@]"]:
@@ -170,8 +172,20 @@ def run(chk: core.Check, tier: str, seed: int) -> None:
                     chk.violation({"clause": "nondeterministic find raised where the deterministic mode completes"},
                                   {"query": q, "doc": d, "limit": lim, "outputs": [repr(o) for o in outs][:4]})
                 except jp.JSONPathError:
-                    pass
+                    # the deterministic mode raises too: then EVERY outcome of the random choices must raise
+                    # ("exactly the nodes of the deterministic result": there is none)
+                    if any(not (o and o[0] == "raised") for o in outs):
+                        chk.violation({"clause": "nondeterministic find completes where the deterministic mode raises"},
+                                      {"query": q, "doc": d, "limit": lim, "outputs": [repr(o) for o in outs][:4]})
                 continue
+            else:
+                det = probes.make_env(jp, [], [], max_depth=lim)
+                try:
+                    det.find(q, d)
+                except jp.JSONPathError as err:
+                    chk.violation({"clause": "nondeterministic find completes where the deterministic mode raises"},
+                                  {"query": q, "doc": d, "limit": lim, "deterministic": type(err).__name__, "outputs": [repr(o) for o in outs][:4]})
+                    continue
             recs.append({"op": "nondet", "q": core.enc_text(q), "doc": ed, "complete": complete, "runs": runs,
                          "outputs": [[core.enc_loc(loc) for loc in o] for o in outs]})
     # larger documents: seeded outcomes, validity only
